@@ -1,5 +1,191 @@
-import PyAirtouch.Model.Heartbeat
-/-! placeholder until the proof files are merged -/
+import PyAirtouch.Lemmas.Heartbeat
+/-!
+# C08 — heartbeat period and silence detection
+
+Theorems about the model `PyAirtouch.Model.Heartbeat` of `HeartbeatManager`.  Every statement holds
+for every label sequence (every interleaving of the two tasks, the environment and the clock) and
+for arbitrary `interval` and `timeout`; the only assumption about the runtime is the guard of
+`advance` (a timer fires when it is due).  Times are ticks.
+-/
 namespace PyAirtouch.Props.C08
-theorem C08_placeholder : True := trivial
+open PyAirtouch.Model.Heartbeat PyAirtouch.Spec.Heartbeat PyAirtouch.Lemmas.Heartbeat
+
+/-! ## 1. the deadline -/
+
+/-- time never passes a pending deadline, and the deadline is exactly `timeout` after the latest arm
+point; the parameters never change -/
+theorem C08_deadline_never_missed {i t : Nat} {h : HB} (hr : Reachable i t h) :
+    (∀ d, h.tl = .waiting d → h.now ≤ d ∧ d = h.lastArm + h.timeout) ∧ h.timeout = t ∧ h.interval = i :=
+  have b := reachable_basic hr
+  ⟨b.deadline, b.timeout_eq, b.interval_eq⟩
+
+example : ∃ h, Reachable 2400 2640 h ∧ h.tl = .waiting 2645 ∧ h.now = 2405 ∧ h.lastArm = 5 :=
+  ⟨_, ⟨exBeat, rfl⟩, by decide⟩
+
+/-! ## 2. arm points -/
+
+/-- the latest arm point only moves at `start`, when a response is consumed, when a reset completes
+and at an expiry while the link is down — and then it moves to the current instant -/
+theorem C08_arm_points {h h' : HB} {l : Label} (hs : step h l = some h')
+    (hne : h'.lastArm ≠ h.lastArm) :
+    (l = .start ∨ l = .tlWake ∨ l = .tlResetDone ∨ (l = .tlFire ∧ h.connected = false)) ∧
+      h'.lastArm = h.now := by
+  cases l <;> simp only [step, HB.emit, enterTimeout] at hs
+  all_goals (repeat' split at hs)
+  all_goals (first | cases hs | skip)
+  all_goals grind
+
+example : ∃ h h', Reachable 2400 2640 h ∧ step h .tlWake = some h' ∧ h'.lastArm ≠ h.lastArm :=
+  ⟨_, _, ⟨exBeat ++ [.response], rfl⟩, rfl, by decide⟩
+
+/-! ## 3. a reset only after a full `timeout` of silence -/
+
+/-- an expiry while the link is up issues a reset, exactly `timeout` after the latest arm point -/
+theorem C08_reset_at_deadline {i t : Nat} {h h' : HB} (hr : Reachable i t h)
+    (hs : step h .tlFire = some h') (hc : h.connected = true) :
+    h'.trace = h.trace ++ [.reset h.now] ∧ h.now = h.lastArm + t := by
+  have b := reachable_basic hr
+  have hd := b.deadline
+  have ht := b.timeout_eq
+  simp only [step, HB.emit, enterTimeout] at hs
+  repeat' split at hs
+  all_goals (first | cases hs | skip)
+  all_goals grind
+
+example : ∃ h h', Reachable 2400 2640 h ∧ step h .tlFire = some h' ∧ h.connected = true :=
+  ⟨_, _, ⟨exDue, rfl⟩, rfl, by decide⟩
+
+/-- conversely the only step that adds a `reset` event is an expiry while the link is up -/
+theorem C08_reset_only_by_expiry {h h' : HB} {l : Label} {r : Nat} (hs : step h l = some h')
+    (hin : HEv.reset r ∈ h'.trace) (hout : HEv.reset r ∉ h.trace) :
+    l = .tlFire ∧ h.connected = true ∧ r = h.now ∧ h'.trace = h.trace ++ [.reset h.now] :=
+  step_reset hs hin hout
+
+example : ∃ h h' l r, Reachable 2400 2640 h ∧ step h l = some h' ∧ HEv.reset r ∈ h'.trace ∧
+    HEv.reset r ∉ h.trace :=
+  ⟨_, _, .tlFire, 2645, ⟨exDue, rfl⟩, rfl, by decide, by decide⟩
+
+/-- in the recorded events: a reset never comes earlier than `timeout`, and no response lies in the
+`timeout` ticks before it (responses at the very instant of the reset may be recorded on either
+side of it) -/
+theorem C08_reset_only_after_full_silence {i t : Nat} {h : HB} (hr : Reachable i t h) :
+    ∀ r, HEv.reset r ∈ h.trace → t ≤ r ∧ ∀ x, HEv.resp x ∈ h.trace → ¬ (r - t < x ∧ x < r) := by
+  intro r hrm
+  have k := reachable_traceInv hr
+  refine ⟨k.reset_ge r hrm, fun x hx => ?_⟩
+  have := k.reset_quiet r x hrm hx
+  omega
+
+example : ∃ h, Reachable 2400 2640 h ∧ HEv.reset 2645 ∈ h.trace ∧ HEv.resp 5 ∈ h.trace :=
+  ⟨_, ⟨[.conn true, .advance 5, .start, .response, .tlWake, .hlBeat, .advance 2405, .hlBeat,
+        .advance 2645, .tlFire], rfl⟩, by decide, by decide⟩
+
+/-- every recorded reset comes a whole number `k + 1` of timeouts after a recorded arm point `a` (a
+`start`, a response, a completed reset; `k` expiries in between found the link down), and no
+response at all lies strictly between `a` and the reset -/
+theorem C08_reset_origin {i t : Nat} {h : HB} (hr : Reachable i t h) :
+    ∀ r, HEv.reset r ∈ h.trace → ∃ k a, r = a + (k + 1) * t ∧
+      (HEv.start a ∈ h.trace ∨ HEv.resp a ∈ h.trace ∨ HEv.resetDone a ∈ h.trace) ∧
+      ∀ x, HEv.resp x ∈ h.trace → x ≤ a ∨ r ≤ x :=
+  (reachable_armInv hr).reset_origin
+
+/-- link down at the first expiry (2645), up again, reset at the second: 5285 = 5 + 2·2640 -/
+example : ∃ h, Reachable 2400 2640 h ∧ HEv.reset 5285 ∈ h.trace ∧ HEv.start 5 ∈ h.trace :=
+  ⟨_, ⟨[.advance 5, .start, .hlBeat, .advance 2405, .hlBeat, .advance 2645, .tlFire, .conn true,
+        .advance 4805, .hlBeat, .advance 5285, .tlFire], rfl⟩, by decide, by decide⟩
+
+/-! ## 4. silence is detected -/
+
+/-- the clock cannot be moved past a pending deadline … -/
+theorem C08_silence_detected {h h' : HB} {d t' : Nat} (hw : h.tl = .waiting d)
+    (hs : step h (.advance t') = some h') : t' ≤ d := by
+  simp only [step, hw] at hs
+  grind
+
+example : ∃ h h', Reachable 2400 2640 h ∧ h.tl = .waiting 2645 ∧ step h (.advance 2645) = some h' :=
+  ⟨_, _, ⟨exBeat ++ [.hlBeat], rfl⟩, by decide, rfl⟩
+
+/-- … on any path: without an expiry, a consumed response or `stop` the same deadline stays pending
+and the clock stays on this side of it -/
+theorem C08_silence_detected_run {i t : Nat} {h h' : HB} {d : Nat} {ls : List Label}
+    (hr : Reachable i t h) (hw : h.tl = .waiting d) (hrun : run h ls = some h')
+    (hls : ∀ l ∈ ls, l ≠ .tlFire ∧ l ≠ .tlWake ∧ l ≠ .stop) :
+    h'.tl = .waiting d ∧ h'.now ≤ d ∧ h'.lastArm = h.lastArm :=
+  run_keeps_deadline ls h h' hrun hw ((reachable_basic hr).deadline d hw).1 hls
+
+example : ∃ h h' ls, Reachable 2400 2640 h ∧ h.tl = .waiting 2645 ∧ run h ls = some h' ∧ ls.length = 3 ∧
+    ∀ l ∈ ls, l ≠ .tlFire ∧ l ≠ .tlWake ∧ l ≠ .stop :=
+  ⟨_, _, [.hlBeat, .conn false, .advance 2645], ⟨exBeat, rfl⟩, by decide, rfl, rfl, by decide⟩
+
+/-- when the deadline is reached the expiry is enabled; it resets the connection iff the link is up,
+and otherwise starts a new period at once -/
+theorem C08_expiry_enabled {h : HB} {d : Nat} (hw : h.tl = .waiting d) (hn : h.now = d) :
+    ∃ h', step h .tlFire = some h' ∧
+      (h.connected = true → h'.trace = h.trace ++ [.reset d] ∧ h'.tl = .resetting) ∧
+      (h.connected = false → h'.trace = h.trace ∧ h'.tl = .waiting (d + h.timeout) ∧ h'.lastArm = d) := by
+  cases hc : h.connected <;> simp [step, hw, hn, hc, HB.emit, enterTimeout]
+
+example : ∃ h, Reachable 2400 2640 h ∧ h.tl = .waiting 2645 ∧ h.now = 2645 :=
+  ⟨_, ⟨exDue, rfl⟩, by decide⟩
+
+/-! ## 5. the period -/
+
+/-- time never passes a pending wake-up of the heartbeat loop -/
+theorem C08_wake_never_missed {i t : Nat} {h : HB} {u : Nat} (hr : Reachable i t h)
+    (hu : h.hl = .sleeping u) : h.now ≤ u :=
+  ((reachable_basic hr).wake u hu).1
+
+example : ∃ h, Reachable 2400 2640 h ∧ h.hl = .sleeping 2405 := ⟨_, ⟨exBeat, rfl⟩, by decide⟩
+
+/-- every iteration of the heartbeat loop happens exactly at its wake-up time, schedules the next
+one `interval` later, and sends a request iff the link is up -/
+theorem C08_period {i t : Nat} {h h' : HB} (hr : Reachable i t h) (hs : step h .hlBeat = some h') :
+    ∃ u, h.hl = .sleeping u ∧ h.now = u ∧ h'.hl = .sleeping (u + i) ∧
+      (h.connected = true → h'.trace = h.trace ++ [.beat u]) ∧
+      (h.connected = false → h'.trace = h.trace) := by
+  have b := reachable_basic hr
+  have hw := b.wake
+  have hi := b.interval_eq
+  simp only [step, HB.emit] at hs
+  repeat' split at hs
+  all_goals (first | cases hs | skip)
+  all_goals grind
+
+example : ∃ h h', Reachable 2400 2640 h ∧ step h .hlBeat = some h' ∧ h.now = 2405 :=
+  ⟨_, _, ⟨exBeat, rfl⟩, rfl, by decide⟩
+
+/-! ## 6. no false reset -/
+
+/-- If every iteration of the heartbeat loop, at an instant `b`, is followed by a consumed response
+before time reaches `b + (timeout − interval)` (`GoodRun`, a check on the label sequence alone), the
+connection is never reset.  Nothing has to be assumed about the link: an iteration during which the
+link is down sends no request, so it can only be "answered" by a stray response. -/
+theorem C08_no_false_reset {i t : Nat} (hit : i < t) :
+    ∀ ls h, run (init i t) ls = some h → GoodRun (t - i) ls → ∀ r, HEv.reset r ∉ h.trace := by
+  intro ls h hr hg
+  obtain ⟨s', hsim⟩ := sim_run (m := t - i) (by omega) (by omega) ls _ h _ (sim_init i t (t - i)) hr hg
+  exact hsim.no_reset
+
+/-- three requests at 5, 2405, 4805 answered after 0, 239 and 100 ticks (`timeout − interval = 240`) -/
+example : ∃ h, run (init 2400 2640) exGood = some h ∧ GoodRun (2640 - 2400) exGood ∧
+    HEv.beat 4805 ∈ h.trace ∧ HEv.resp 4905 ∈ h.trace ∧ h.now = 7000 ∧ h.tl = .waiting 7545 :=
+  ⟨_, rfl, by decide, by decide, by decide, by decide, by decide⟩
+
+/-- the bound is tight: one tick more and a reset can happen although every request is answered -/
+example : ∃ ls h, run (init 2400 2640) ls = some h ∧ GoodRun (2640 - 2400 + 1) ls ∧
+    HEv.reset 2645 ∈ h.trace :=
+  ⟨[.conn true, .advance 5, .start, .hlBeat, .response, .tlWake,
+    .advance 2405, .hlBeat, .advance 2645, .tlFire], _, rfl, by decide, by decide⟩
+
+/-- … in fact the deadline is never even reached, so the timeout never expires -/
+theorem C08_no_expiry {i t : Nat} (hit : i < t) :
+    ∀ ls h, run (init i t) ls = some h → GoodRun (t - i) ls →
+      h.tl ≠ .resetting ∧ ∀ d, h.tl = .waiting d → h.now < d := by
+  intro ls h hr hg
+  obtain ⟨s', hsim⟩ := sim_run (m := t - i) (by omega) (by omega) ls _ h _ (sim_init i t (t - i)) hr hg
+  exact ⟨hsim.not_resetting, sim_lt (by omega) hsim⟩
+
+example : ∃ h, run (init 2400 2640) exGood = some h ∧ GoodRun (2640 - 2400) exGood ∧ h.tl = .waiting 7545 :=
+  ⟨_, rfl, by decide, by decide⟩
+
 end PyAirtouch.Props.C08
